@@ -96,7 +96,9 @@ def c_buffer(b: tuple) -> str:
 def c_bop(op: tuple) -> str:
     if op[0] == "W":
         return f"Write {C.cstr(op[1])}"
-    return {"OC": "OpenChild", "ON": "OpenNull", "C": "Close", "CW": "CloseWrite"}[op[0]]
+    if op[0] == "OC":
+        return f"OpenChild {op[1]}%nat"
+    return {"ON": "OpenNull", "C": "Close", "CW": "CloseWrite"}[op[0]]
 
 
 def c_optN(x: int | None) -> str:
@@ -184,7 +186,7 @@ def gen_writes(chk: C.Check) -> list[tuple[int, bool, list[str]]]:
     seqs: list[list[str]] = [[c] for c in CHUNKS]
     pairs = [[a, b] for a in CHUNKS for b in CHUNKS]
     seqs += pairs if thorough else r.sample(pairs, 40)
-    for _ in range(200 if thorough else 30):
+    for _ in range(100 if thorough else 30):
         seqs.append([r.choice(CHUNKS) for _ in range(r.randint(3, 7))])
     out = []
     for seq in seqs:
@@ -200,6 +202,8 @@ def gen_writes(chk: C.Check) -> list[tuple[int, bool, list[str]]]:
         lims = sorted(x for x in lims if x >= 0)
         if not thorough and len(lims) > 5:
             lims = sorted(set(r.sample(lims, 3)) | {acc - 1 if acc else 0, acc})
+        elif thorough and len(lims) > 8:
+            lims = sorted(set(r.sample(lims, 6)) | {acc - 1 if acc else 0, acc})
         for lim in lims:
             for nl_none in (False, True):
                 if nl_none and not thorough and r.random() < 0.5:
@@ -238,7 +242,7 @@ def run_bufops(limit: int | None, ops: list[tuple]) -> list[tuple]:
             if op[0] == "W":
                 stack[-1].write(op[1])
             elif op[0] == "OC":
-                stack.append(ctx.get_output_buffer(stack[-1]))
+                stack.append(ctx.get_output_buffer(stack[-1 - op[1]]))
             elif op[0] == "ON":
                 stack.append(NullIO())
             elif op[0] == "C":
@@ -265,7 +269,7 @@ def gen_bufops(chk: C.Check) -> list[tuple[int | None, list[tuple]]]:
             if x < 0.5:
                 ops.append(("W", r.choice(CHUNKS[:9]) if r.random() < 0.8 else r.choice(CHUNKS)))
             elif x < 0.68:
-                ops.append(("OC",))
+                ops.append(("OC", 0 if r.random() < 0.7 else r.randrange(depth)))
                 depth += 1
             elif x < 0.76:
                 ops.append(("ON",))
@@ -308,8 +312,8 @@ def bufops_oracle(limit: int | None, ops: list[tuple], obs: list[tuple], unl: li
                 return f"step {i}: buffer holds {b[2]} bytes, its limit is {b[1]}"
             if enc_len(b[4]) != b[2]:
                 return f"step {i}: size {b[2]} but getvalue has {enc_len(b[4])} bytes"
-            if j + 1 < len(st) and st[j + 1][0] == "L" and b[2] + st[j + 1][2] > limit:
-                return f"step {i}: child {b[2]} + parent {st[j + 1][2]} bytes > limit {limit}"
+            if b[2] + (limit - b[1]) > limit:
+                return f"step {i}: child {b[2]} + carried {limit - b[1]} bytes > limit {limit}"
         # transparency: same texts as the unlimited run
         ust = unl[i][1]
         if [x[-1] if x[0] != "N" else "" for x in st] != [x[-1] if x[0] != "N" else "" for x in ust]:
@@ -493,14 +497,14 @@ def gen_limops(chk: C.Check) -> list[tuple[tuple, list[tuple]]]:
         for seq in itertools.product(alpha, repeat=n):
             if not valid(seq):
                 continue
-            if n == 4 and r.random() > 0.25:
+            if n == 4 and r.random() > 0.1:
                 continue
             if not thorough and n == 3 and r.random() > 0.5:
                 continue
             for cfg in (cfgs if (thorough or n < 3) else [cfgs[r.randrange(3)]]):
                 out.append((cfg, settle(cfg, list(seq))))
     # random longer sequences, limits swept around their consumption
-    for _ in range(400 if thorough else 60):
+    for _ in range(250 if thorough else 60):
         ops = _valid_limops(r, r.randint(6, 40 if thorough else 24))
         d, p, l = _limops_need(ops)
         sweeps = []
@@ -843,9 +847,12 @@ def install() -> None:
             tr = TR
             if tr is not None and tr.trace_buffers and type(buf) is LimitedStringIO:
                 buf.__class__ = TLimited
-                tr.bsync(parent_buffer)
+                k = next((i for i, b in enumerate(reversed(tr.bufstack)) if b is parent_buffer), None)
+                if k is None:
+                    tr.problems.append("child buffer opened on a buffer that is not on the stack")
+                    k = 0
                 tr.bufstack.append(buf)
-                tr.blog(("OC",), "ok")
+                tr.blog(("OC", k), "ok")
             return buf
 
     class TLimited(LimitedStringIO):
@@ -1385,13 +1392,13 @@ def main(chk: C.Check, build: C.Build) -> None:
 
     # ---- B: programs
     r = C.rng("c06", "programs")
-    progs = list(CORPUS) + [gen_program(r, i) for i in range(160 if thorough else 22)]
+    progs = list(CORPUS) + [gen_program(r, i) for i in range(120 if thorough else 22)]
     cyc = cyclic_programs(r, thorough)
     rl_items: list[dict[str, Any]] = []
     rb_items: list[dict[str, Any]] = []
     flips: set[tuple[str, str]] = set()
     samples: list[dict[str, Any]] = []
-    budget = [2_500_000 if thorough else 220_000]   # numerals for derived traces
+    budget = [1_500_000 if thorough else 220_000]   # numerals for derived traces
 
     def add_traces(prog: dict[str, Any], kind: str, limits: dict[str, Any], res: dict[str, Any]) -> None:
         tr = res["tr"]
